@@ -35,7 +35,7 @@ INJECTED = [("inj_op", "before"), ("inj_op", "after"), ("inj_view", "before"), (
 
 
 def gen_case(rng, cfg, idx):
-    c = C05.gen_case(rng, {"nstmts": cfg["nstmts"]}, idx)
+    c = C05.gen_case(rng, {"nstmts": cfg["nstmts"], "two_epoch": False}, idx)
     if c is None:
         return None
     c["fseed"] = rng.randrange(1 << 30)
@@ -109,6 +109,59 @@ def fault_stmt(kind, t, shape, rng, mode=None):
     raise KeyError(kind)
 
 
+def native_ro_probe(rng, shape):
+    """A tensor family whose memory was read-only BEFORE MyGrad ever locked it: leaf (copy=False wrapper of a read-only array), a view of
+    it and a consumer of both; an in-place update through the view (or the leaf) must be refused and must leave the family wired
+    to the consumer: the consumer's backward then still reaches leaf and view.  Returns None or a violation message."""
+    import mygrad as mg
+    shape = tuple(shape) if shape else (2,)
+    n = int(np.prod(shape))
+
+    def build():
+        a = np.arange(1.0, n + 1.0).reshape(shape).copy()   # owns its memory (a read-only VIEW of a writeable owner is the C08 finding)
+        a.flags.writeable = False
+        x = mg.Tensor(a, copy=False)
+        v = x[...]
+        y = x * 2.0 + v * 3.0
+        return a, x, v, y
+
+    a, x, v, y = build()
+    tgt = v if rng.random() < 0.6 else x
+    try:
+        if rng.random() < 0.5:
+            tgt[...] = 1.0
+        else:
+            tgt *= 2.0
+        return "an in-place update of natively read-only memory was accepted"
+    except Exception:
+        pass
+    y.sum().backward()
+    a2, x2, v2, y2 = build()
+    y2.sum().backward()
+    for name, t, t2 in (("leaf", x, x2), ("view", v, v2)):
+        g, g2 = t.grad, t2.grad
+        if (g is None) != (g2 is None) or (g is not None and not np.array_equal(g, g2)):
+            return f"after a refused in-place update of natively read-only memory the {name}'s gradient is {None if g is None else g.ravel()[:3]}, fault-free {None if g2 is None else g2.ravel()[:3]}"
+    if a.flags.writeable or not np.array_equal(a, a2):
+        return "the natively read-only array was made writeable / modified"
+    return None
+
+
+BACKWARD_FAULTS = [("bw_bad_seed", None), ("bw_abort", "before"), ("bw_abort", "after"), ("bw_abort", "after"), ("bw_abort", "after")]
+
+
+def backward_fault_stmt(kind, st, mode, rng, nops):
+    """A failing variant of the backward statement `st`: a seed of an incompatible shape (natural ValueError), or a back-propagation
+    aborted by an exception inside / right after the backward of its k-th operation (what a FloatingPointError under np.errstate, a
+    KeyboardInterrupt or a MemoryError does); the program then simply calls backward again."""
+    f = dict(st)
+    if kind == "bw_bad_seed":
+        f["seed"] = enc_arr(np.ones((3, 5, 7)))
+    else:
+        f["inject_bw"] = {"mode": mode, "countdown": rng.randrange(max(1, nops))}
+    return f
+
+
 def snapshot(env, extra_arrays=()):
     snap = {}
     for n, v in env.items():
@@ -131,15 +184,16 @@ def snapshot(env, extra_arrays=()):
 FIELDS_T = ["kind", "identity", "data", "dtype", "shape", "constant", "base", "creator", "consumers", "writeable", "grad"]
 
 
-def diff_snap(a, b):
+def diff_snap(a, b, ignore=()):
     out = []
     for n in a:
         if n not in b:
             out.append(f"{n} disappeared")
         elif a[n] != b[n]:
             names = FIELDS_T if a[n][0] == "T" else ["kind", "identity", "data", "writeable"]
-            ch = [names[i] for i in range(min(len(a[n]), len(b[n]))) if a[n][i] != b[n][i]]
-            out.append(f"{n}: {','.join(ch)} changed")
+            ch = [names[i] for i in range(min(len(a[n]), len(b[n]))) if a[n][i] != b[n][i] and names[i] not in ignore]
+            if ch:
+                out.append(f"{n}: {','.join(ch)} changed")
     return out
 
 
@@ -163,7 +217,8 @@ def run_with_fault(prog, pos, fstmts):
     after = snapshot(it.env)
     for n in [n for n in it.env if n.startswith("__")]:
         del it.env[n]  # helper operands of the failing statement (out= targets, a read-only view, ...) go out of scope
-    diffs = diff_snap(before, after) if raised else []
+    # (an aborted back-propagation leaves partial gradients behind; the property speaks of values, flags, bases, views and the place in the graph)
+    diffs = diff_snap(before, after, ignore=("grad",) if fstmts[-1]["k"] == "backward" else ()) if raised else []
     if not raised:
         return it, None, False, [], None
     for i in range(pos, len(prog)):
@@ -186,20 +241,37 @@ def run_case(case):
         live.append({n: np.shape(v) for n, v in sh.env.items() if isinstance(v, np.ndarray) and v.dtype.kind == "f" and n in ref.env
                      and mgrun.is_tensor(ref.env[n])})
         sh.exec(i, st)
-    positions = [p for p in range(1, len(prog)) if live[p]]
+    live.append({n: np.shape(v) for n, v in sh.env.items() if isinstance(v, np.ndarray) and v.dtype.kind == "f" and n in ref.env
+                 and mgrun.is_tensor(ref.env[n])})      # ... and AFTER the final backward (cleared graphs, lingering bases)
+    positions = [p for p in range(1, len(prog) + 1) if live[p]]
     if len(positions) > case["max_positions"]:
-        positions = sorted(rng.sample(positions, case["max_positions"]))
+        positions = sorted(rng.sample(positions[:-1], case["max_positions"] - 1)) + [positions[-1]]
     viol, cnt, sets = [], {"fault_points": 0, "fault_points_raised": 0, "did_not_raise": 0, "snapshots_compared": 0, "final_compared": 0}, {}
     kinds = [(k, None) for k in NATURAL] + INJECTED
     for p in positions:
-        for kind, mode in kinds:
+        cnt["fault_points"] += 1
+        todo = list(kinds)
+        if p < len(prog) and prog[p]["k"] == "backward":
+            todo += BACKWARD_FAULTS
+        msg = native_ro_probe(rng, live[p][sorted(live[p])[0]])
+        cnt["native_ro_probes"] = cnt.get("native_ro_probes", 0) + 1
+        if msg:
+            viol.append({"monitor": "final", "mech": "native-readonly-family", "fault": "native_ro", "pos": p, "target": None, "msg": msg})
+        for kind, mode in todo:
             t = rng.choice(sorted(live[p]))
             shape = live[p][t]
             tag = kind + (":" + mode if mode else "")
             try:
-                fst = fault_stmt(kind, t, shape, rng, mode)
+                if kind.startswith("bw_"):
+                    t = prog[p]["tgt"]
+                    fst = backward_fault_stmt(kind, prog[p], mode, rng, sum(1 for st in prog[:p] if st["k"] in ("call", "setitem", "aug", "uout")))
+                    cnt["backward_faults"] = cnt.get("backward_faults", 0) + 1
+                else:
+                    fst = fault_stmt(kind, t, shape, rng, mode)
             except Exception:
                 continue
+            if p == len(prog) and (fst[-1] if isinstance(fst, list) else fst)["k"] != "call":
+                continue   # after the final backward a failing IN-PLACE statement legitimately discards its target's stale gradient first
             cnt["fault_points"] += 1
             try:
                 it, grads, raised, diffs, exc = run_with_fault(prog, p, fst)
